@@ -248,6 +248,10 @@ def run(index, rep, tier):
     rep.rule("R09.10", "cell values are written losslessly: the matrix writers format numbers with str/%s/{} only (shared with R02.6)")
     with rep.section("R09.10"):
         rep.floor("R09.10", "format strings in the matrix writers", 40, c02.lossless_format_rule(index, rep, "R09.10", ["dendropy.dataio.nexuswriter", "dendropy.dataio.nexmlwriter", "dendropy.dataio.phylipwriter", "dendropy.dataio.fastawriter"]))
+    rep.rule("R09.11", "tokenizer modes do not leak from a SETS block into the next matrix: hyphens-as-tokens is switched off on every normal exit of the position-list parser (shared with R13.6)")
+    with rep.section("R09.11"):
+        from . import c13
+        rep.floor("R09.11", "functions switching hyphens to tokens", 1, c13.mode_pairing_rule(index, rep, "R09.11"))
     rep.rule("R09.7", "per-matrix parser state: every accumulator field the NeXML characters parser fills while reading one matrix is re-initialised at the start of the next (the parser object is reused across matrices)")
     nacc = unit_state_rule(index, rep, "R09.7", NXR + "._NexmlCharBlockParser", "parse_char_matrix", NXR + ".NexmlReader._parse_char_matrices")
     rep.floor("R09.7", "accumulator fields of the NeXML characters parser", 5, nacc)
